@@ -374,7 +374,133 @@ pub fn run_family(run: &mut Run, mode: BigMode) {
     run.bound("big.streams", json!("tournament of size 1 / random choice: all n cells of the grid (exact uniform law); otherwise every stream with at most 1 non-default word (2 up to 40 individuals, thorough) among the first 24 (12 beyond 300 individuals) over the extended grid Ext(4)"));
 }
 
+/// Binary tournaments on populations of thousands: a sampler of 2 distinct out of n makes two range draws
+/// (n-1 and n values: rand's, calibrated below on `rand::seq::index::sample` itself); all (n-1) * n pairs of
+/// grid words are enumerated and every unordered pair of individuals must be the pair of entrants exactly
+/// twice - "every 2-subset equally likely", decided exactly at sizes where no tree could be walked.  The
+/// entrants are the individuals whose comparison is recorded.
+pub fn binary_pair_law(run: &mut Run) {
+    struct TwoWords {
+        w: [u32; 2],
+        i: usize,
+        odd: bool,
+    }
+    impl rand::RngCore for TwoWords {
+        fn next_u32(&mut self) -> u32 {
+            let k = self.i;
+            self.i += 1;
+            if k < 2 {
+                self.w[k]
+            } else {
+                self.odd = true;
+                0x8000_0001
+            }
+        }
+        fn next_u64(&mut self) -> u64 {
+            self.odd = true;
+            self.i += 1;
+            0x8000_0000_0000_0001
+        }
+        fn fill_bytes(&mut self, dst: &mut [u8]) {
+            self.odd = true;
+            dst.fill(0x55);
+        }
+    }
+    let sizes: Vec<usize> = if run.quick() { vec![4098, 5000] } else { vec![4097, 4098, 5000, 8192, 10_007] };
+    for n in sizes {
+        let pair_index = |a: usize, b: usize| -> usize {
+            let (a, b) = if a < b { (a, b) } else { (b, a) };
+            b * (b - 1) / 2 + a
+        };
+        let total_pairs = n * (n - 1) / 2;
+        let (g1, g2) = (Alphabet::Grid(n as u32 - 1), Alphabet::Grid(n as u32));
+        // enumerate; `subject`: the tournament, else rand's own sampler (calibration)
+        let enumerate = |subject: bool| -> Result<(u64, Option<(usize, usize, u8)>), String> {
+            let counts: Vec<std::sync::atomic::AtomicU8> = (0..total_pairs).map(|_| std::sync::atomic::AtomicU8::new(0)).collect();
+            let probes: Vec<Probe> = (0..n).map(|id| Probe { value: (id % 5) as i64, id }).collect();
+            let chunks = 64usize;
+            let errs = mcx::par_map(chunks, |c| {
+                let (lo, hi) = (c * (n - 1) / chunks, (c + 1) * (n - 1) / chunks);
+                let sel = Tournament::binary();
+                for j1 in lo..hi {
+                    let w1 = g1.word32(j1 as u32);
+                    for j2 in 0..n {
+                        let mut rng = TwoWords { w: [w1, g2.word32(j2 as u32)], i: 0, odd: false };
+                        let (a, b) = if subject {
+                            TOUCHED.with(|t| t.borrow_mut().clear());
+                            let r = ec_core::operator::selector::Selector::select(&sel, &probes, &mut rng);
+                            if r.is_err() {
+                                return Some("the selection failed".to_string());
+                            }
+                            let ids = TOUCHED.with(|t| std::mem::take(&mut *t.borrow_mut()));
+                            match ids.as_slice() {
+                                [a, b] if a != b => (*a, *b),
+                                other => return Some(format!("the comparisons recorded for one binary tournament were {other:?}")),
+                            }
+                        } else {
+                            let v = rand::seq::index::sample(&mut rng, n, 2).into_vec();
+                            (v[0], v[1])
+                        };
+                        if rng.odd || rng.i != 2 {
+                            return Some(format!("{} draws, not two 32-bit range draws", rng.i));
+                        }
+                        counts[pair_index(a, b)].fetch_add(1, std::sync::atomic::Ordering::Relaxed);
+                    }
+                }
+                None
+            });
+            if let Some(e) = errs.into_iter().flatten().next() {
+                return Err(e);
+            }
+            let mut bad = 0u64;
+            let mut example = None;
+            for b in 1..n {
+                for a in 0..b {
+                    let c = counts[pair_index(a, b)].load(std::sync::atomic::Ordering::Relaxed);
+                    if c != 2 {
+                        bad += 1;
+                        if example.is_none() {
+                            example = Some((a, b, c));
+                        }
+                    }
+                }
+            }
+            Ok((bad, example))
+        };
+        run.evaluations += 2 * (n as u64 - 1) * n as u64;
+        match enumerate(false) {
+            Ok((0, _)) => {}
+            other => {
+                run.note("pair_law.skipped", json!(format!("rand's own sampler of 2 out of {n} does not give every pair twice over the two grids ({other:?}): the enumeration does not apply")));
+                continue;
+            }
+        }
+        match mcx::guarded(|| enumerate(true)) {
+            Err(p) => run.violation("big/tournament/pair-law".to_string(), format!("binary tournaments on {n} individuals: panicked: {p}"), json!({"check":"C07","big":true,"pair_law":n})),
+            Ok(Err(e)) => run.note("pair_law.not_applicable", json!(format!("{n} individuals: {e}"))),
+            Ok(Ok((0, _))) => {}
+            Ok(Ok((bad, ex))) => {
+                let (a, b, c) = ex.unwrap_or((0, 0, 0));
+                run.violation("big/tournament/pair-law".to_string(), format!("binary tournaments on {n} individuals, all {} pairs of grid words: {bad} of the {total_pairs} pairs of individuals are not the entrants exactly twice, e.g. individuals {a} and {b} meet {c} times: the 2-subsets are not equally likely", (n - 1) * n), json!({"check":"C07","big":true,"pair_law":n}));
+            }
+        }
+    }
+    run.bound("big.binary_pair_law_sizes", json!(if run.quick() { "4098, 5000" } else { "4097, 4098, 5000, 8192, 10007" }));
+}
+
 pub fn replay(mode: BigMode, v: &Value) -> bool {
+    if v["pair_law"].is_u64() {
+        let mut r = Run::new("C07", "quick");
+        binary_pair_law(&mut r);
+        let g = r.violations.lock().unwrap();
+        for (k, x) in g.iter() {
+            println!("MISMATCH [{k}]: {}", x.what);
+        }
+        if g.is_empty() {
+            println!("replay: property held");
+        }
+        return g.is_empty();
+    }
     let (Some(sel), Some(n)) = (sel_from(&v["selector"]), v["n"].as_u64()) else {
         println!("cannot decode the scenario");
         return false;
